@@ -9,7 +9,7 @@ from common import *
 
 
 def run_pipeline(pid, tier, seed, replay, *, driver, model, trace_module, trace_cfg, tiers, prefixes,
-                 assumptions, security=False, extra_vh=None, known_env=(), extra_sources=()):
+                 assumptions, security=False, extra_vh=None, known_env=(), extra_sources=(), extra_coverage=None):
     t0 = time.time()
     d = clean_dir(outdir(pid, "work"))
     build_harness(security)
@@ -141,6 +141,8 @@ def run_pipeline(pid, tier, seed, replay, *, driver, model, trace_module, trace_
         "exhaustive": bool(mc_detail),
         "clauses_of_other_properties_seen": other,
     }
+    if extra_coverage is not None and replay is None:
+        coverage.update(extra_coverage(d))
     if replay is None:
         level = "model_checking" if states > 0 else "exploration"
         if level == "exploration":
